@@ -21,10 +21,10 @@ ASSUMPTIONS = [
     "snapshot built from public accessors only (get_records, bundles, namespaces, get_default_namespace)",
     "flattened() of a bundle-free document is documented to return the document itself and is not treated as a derivation",
 ]
-OPS = ["copy", "add_record", "ctor", "update", "add_bundle", "unified", "flattened", "json", "xml"]
-MUTS = ["add_attr", "add_value", "add_record", "ns_fresh", "ns_clash", "set_default", "add_bundle", "add_bundle_member"]
+OPS = ["copy", "add_record", "ctor", "update", "add_bundle", "unified", "unified_twice", "flattened", "json", "xml"]
+MUTS = ["add_attr", "add_value", "set_absent_formal", "add_record", "ns_fresh", "ns_clash", "set_default", "add_bundle", "add_bundle_member"]
 REQUIRED_CLASSES = {"all": ["cell:%s:%s:%s" % (o, m, s) for o in OPS for m in MUTS for s in ("result", "source")
-                            if not (o == "copy" and m not in ("add_attr", "add_value"))]}
+                            if not (o == "copy" and m not in ("add_attr", "add_value", "set_absent_formal"))]}
 
 SEED_DOCS = [
     {"profile": "json", "ops": [
@@ -76,6 +76,9 @@ def _snap(x):
 
 def derive(d, op, sel, ctx):
     """-> (source object, result object, document to mutate on the source side, document to mutate on the result side)"""
+    if sel % 2:
+        from ..touch import readonly_touch
+        readonly_touch(d, sel, foreign_lookups=False)     # a document that has been read before (accessors, lookups)
     from prov.model import ProvDocument, ProvException
     from prov.identifier import Namespace, QualifiedName
     recs = [r for c in [d] + list(d.bundles) for r in c.get_records()]
@@ -108,6 +111,13 @@ def derive(d, op, sel, ctx):
             return d, d.unified()
         except ProvException:
             return None
+    if op == "unified_twice":
+        # deriving from an already derived document must again give an independent one
+        try:
+            u = d.unified()
+            return u, u.unified()
+        except ProvException:
+            return None
     if op == "flattened":
         if not d.has_bundles():
             return None
@@ -120,6 +130,22 @@ def derive(d, op, sel, ctx):
             return None
         return d, ProvDocument.deserialize(content=d.serialize(format="xml"), format="xml")
     raise ValueError(op)
+
+
+def _set_absent_formal(r, sel):
+    """give the record a formal argument it does not have yet (an optional time / reference)"""
+    import datetime
+    from prov.model import PROV_ATTR_TIME, PROV_ATTR_STARTTIME, PROV_ATTR_ENDTIME
+    from prov.identifier import Namespace
+    have = {a for a, _ in r.attributes}
+    for a in r.FORMAL_ATTRIBUTES:
+        if a not in have:
+            if a in (PROV_ATTR_TIME, PROV_ATTR_STARTTIME, PROV_ATTR_ENDTIME):
+                r.add_attributes([(a, datetime.datetime(2020, 1, 2, 3, 4, sel % 60))])
+            else:
+                r.add_attributes([(a, Namespace("mutns", "http://mutation/")["formal%d" % sel])])
+            return True
+    return False
 
 
 def _add_value(r, sel):
@@ -137,6 +163,8 @@ def mutate(x, mut, sel):
     from prov.identifier import Namespace, QualifiedName
     NEW = Namespace("mutns", "http://mutation/")
     if isinstance(x, ProvRecord):
+        if mut == "set_absent_formal":
+            return _set_absent_formal(x, sel)
         if mut == "add_value":
             return _add_value(x, sel)
         if mut != "add_attr":
@@ -149,6 +177,13 @@ def mutate(x, mut, sel):
         recs = recs[sel % len(recs):] + recs[:sel % len(recs)] if recs else []
         for r in recs:
             if _add_value(r, sel):
+                return True
+        return False
+    if mut == "set_absent_formal":
+        recs = [r for c in [x] + list(x.bundles) for r in c.get_records()]
+        recs = recs[sel % len(recs):] + recs[:sel % len(recs)] if recs else []
+        for r in recs:
+            if _set_absent_formal(r, sel):
                 return True
         return False
     if mut == "add_attr":
